@@ -87,14 +87,24 @@ def run(ctx):
         for tr in ("netsim", "quic") if (full or i < 3) else ("netsim",):
             files = [{"p": f"w{j}", "n": max(1, cpf * 64 - (j % 2)), "s": 1234 * i + j} for j in range(nf)]
             cases.append({"name": f"wakeup-{nf}f-{cpf}c-{st}s-{cn}n-{tr}", "files": files, "chunk": 64, "streams": st, "conns": cn, "transport": tr, "noroot": True,
-                          "resume": i % 2 == 1, "timeout_ms": 8000, "delays": {"recv.file_begin.enter": 40, "recv.reader.before_wait": 150}})
+                          "resume": i % 2 == 1, "timeout_ms": 12000, "delays": {"recv.file_begin.enter": 450 if i % 2 == 1 else 40, "recv.reader.before_wait": 700 if i % 2 == 1 else 150}})
+    # several readers parked for one file: FileBegin handled after the sender's resume grace, readers not held, so that chunk frames of
+    # one file arrive on more than one data stream first and every parked reader has to be woken
+    for i, (nf, cpf, st, tr) in enumerate([(1, 64, 4, "netsim"), (1, 96, 4, "quic"), (2, 48, 3, "netsim"), (1, 128, 8, "netsim")] + ([(rng.range(1, 4), rng.range(32, 129), rng.range(2, 9), rng.choice(["netsim", "quic"])) for _ in range(6)] if full else [])):
+        files = [{"p": f"k{j}", "n": cpf * 64 - (j % 2), "s": 777 * i + j} for j in range(nf)]
+        cases.append({"name": f"parked-{nf}f-{cpf}c-{st}s-{tr}", "files": files, "chunk": 64, "streams": st, "conns": 1, "transport": tr, "noroot": True,
+                      "resume": True, "timeout_ms": 12000, "count_hits": True, "delays": {"recv.file_begin.enter": 450}})
     rc, results = G.run_xfer(ctx, exe, "grid", cases, timeout=1700)
     if rc != 0 or len(results) != len(cases):
         ctx.oblige("harness:run", False, f"rc={rc} results={len(results)}/{len(cases)} {ctx.harness_stderr[-300:]}")
     completed = 0
     slow = 0
+    parked = {}
     for c, r in zip(cases, results):
         rep = {"case": G.strip(c), "result": r}
+        if c["name"].startswith("parked-"):
+            k = (r.get("hits") or {}).get("recv.reader.before_wait", 0)
+            parked[str(min(k, 4)) + ("+" if k >= 4 else "")] = parked.get(str(min(k, 4)) + ("+" if k >= 4 else ""), 0) + 1
         if r.get("note"):
             ctx.oblige(f"run:{c['name']}", False, r["note"][:200])
             continue
@@ -109,10 +119,10 @@ def run(ctx):
     ctx.coverage.update({
         "evaluations": len(bcases) + len(ncases) + len(cases), "distinct_nontrivial": completed,
         "rule": "grid files {0,1,2,5} x chunks-per-file {0,1,2,5} x streams {1,2,4,8} x connections {1,2,4} x resume {off,on,on-after-partial} over netsim with QUIC stream-visibility semantics "
-                "(quick: one third sampled; thorough: complete), seeded points of the same grid over real loopback QUIC, trees with unusual legal names; the same with FileBegin handling delayed by 40 ms (chunk frames overtake it) and every data reader held for 150 ms between its state look-up and its wait for FileBegin (lost wake-up window); every run must end with both endpoints nil inside the watchdog. "
+                "(quick: one third sampled; thorough: complete), seeded points of the same grid over real loopback QUIC, trees with unusual legal names; the same with FileBegin handling delayed by 40 ms / 450 ms (beyond the sender's 300 ms resume grace: chunk frames overtake it) and every data reader held for 150 ms / 700 ms between its state look-up and its wait for FileBegin (lost wake-up window); files of 32-128 chunks with FileBegin held 450 ms and readers not held (several readers parked for one file, all must be woken); every run must end with both endpoints nil inside the watchdog. "
                 "budget arithmetic exhaustive on files<12, requested<12, connections<6 plus random; validateRelPath on legal odd names. non-trivial = completed end-to-end runs",
         "samples": [cases[0]["name"], cases[len(cases) // 2]["name"], bcases[17], ncases[0]],
-        "completed": completed, "slower_than_3s": slow, "disagreements_model_vs_impl": len(d0) + len(d1),
+        "completed": completed, "slower_than_3s": slow, "parked_readers_per_case": parked, "disagreements_model_vs_impl": len(d0) + len(d1),
     })
     ctx.assumptions += ["'bounded time' is a watchdog (6-8 s) on the implementation and absence of stuck states + a decreasing measure in the model; timers and polling are not steps",
                         "the liveness abstractions cover one connection (one file, and k files over n streams); multi-connection interplay is covered by the grid runs only"]
